@@ -427,6 +427,6 @@ pub fn run(ctx: &mut Ctx) {
         "remove_local_provider after the local provider was displaced/expired reaches a debug assertion outside this statement; steered away from and counted as excluded".into(),
     ];
     let t = ctx.tier;
-    ctx.campaign("history", CampaignCfg::new(t.pick(40_000, 1_500_000)).shards(t.pick(8, 16)), || strategy(60), run_case);
-    ctx.campaign("long-history", CampaignCfg::new(t.pick(2_000, 60_000)).shards(t.pick(8, 16)), || strategy(400), run_case);
+    ctx.campaign("history", CampaignCfg::new(t.pick(40_000, 7_500_000)).shards(t.pick(8, 16)), || strategy(60), run_case);
+    ctx.campaign("long-history", CampaignCfg::new(t.pick(2_000, 300_000)).shards(t.pick(8, 16)), || strategy(400), run_case);
 }
